@@ -112,17 +112,22 @@ func (tracer *ContextTracer) Submit() {
 		file:      mainLine.file,
 		line:      mainLine.line,
 	}
+	verifEvent("p:line", log)
 
 	// send log to processing
 	select {
 	case logBuffer <- log:
+		verifEvent("p:enq", log)
 	default:
+		verifEvent("p:full", log)
 	forceEmptyingLoop:
 		// force empty buffer until we can send to it
 		for {
 			select {
 			case forceEmptyingOfBuffer <- struct{}{}:
+				verifEvent("p:forced", log)
 			case logBuffer <- log:
+				verifEvent("p:enqB", log)
 				break forceEmptyingLoop
 			}
 		}
@@ -130,8 +135,11 @@ func (tracer *ContextTracer) Submit() {
 
 	// wake up writer if necessary
 	if logsWaitingFlag.SetToIf(false, true) {
+		verifEvent("p:won", log)
 		logsWaiting <- struct{}{}
+		verifEvent("p:tok", log)
 	}
+	verifEvent("p:ret", log)
 }
 
 func (tracer *ContextTracer) log(level Severity, msg string) {
